@@ -133,7 +133,7 @@ def modify (s : RState) (id : Nat) (newPrice newVol : Option Nat) : RState :=
   match s.orders[id]? with
   | none => s
   | some o =>
-    if (match newPrice with | some p => p % s.tick != 0 | none => false) then s
+    if Book.offGrid s.tick newPrice then s
     else if o.status ≠ .active then s
     else
       match newPrice, newVol with
